@@ -184,6 +184,8 @@ def rule_f(ctx, R):
     from .common import built_structs
     aggs = list(built_structs(f, R, s, "TropicalSampleResult"))
     if len(aggs) < 1:
+        from ..roles import want, builds_adt
+        want(builds_adt("TropicalSampleResult"))
         return ctx.lost("C17-f", "TropicalSampleResult aggregate in sample (found %d)" % len(aggs), s.path)
     # one aggregate per path that builds the result (an early exit without metadata builds it twice): every one is examined
     vs = Vals(s)
